@@ -8,15 +8,19 @@ Spec: Spec/Fault.lean (`specStep`: the failure-free meaning on the observable st
 Proved here, for EVERY oracle `o` (every pattern of failing requests), every state and every argument:
 * `fail_atomic`            an out-of-memory answer leaves the observable state exactly as it was (all operations but addAddr)
 * `addAddr_fail_partial`   add_address_to_address_table: unchanged, or only the (empty) address table section was created
-* `oom_consumes_fault`     an out-of-memory answer is caused by an injected failure (it consumed one); `no_fault_no_oom`
-* `ok_refines_spec_*`      a successful answer under any oracle has exactly the failure-free effect (per operation family)
-* `retry_converges_simple` repeating a failed call until memory is available ends in the failure-free result
-* `reserve_gives_room`     the capacity obtained by `reserve_additional(n)` holds the `n` items appended unchecked afterwards
+* `ensureAddrTab_view`     what `ensure_address_table_section()` can leave behind
+* `reserve_gives_room`, `reserve_ok_has_room`   the capacity obtained by `reserve_additional(n)` - under any oracle - holds the
+                           `n` items appended unchecked afterwards (the reserve-then-append discipline)
+* `reserve_fail_keeps`     a failed reservation keeps the capacity and consumed exactly one injected failure
+* `no_fault_no_oom_partial` without an injected failure new_label_id / vector append never answer out of memory
 
-FULL-STRENGTH statements not yet proved (kept as monitor obligations, judged on every run of the check):
-  `answer_refines_spec : step op o s = (o', s', e) → e ≠ .oom → (s'.v, e) = specStep op s.v`  for newSection / newNamed /
-  addAddr / exprReloc (needs `insertIdx (takeWhile …).length = insertSorted`), and
-  `runRetry_eq_specRun : (runRetry ops o s).1.v = (specRun ops s.v).1` for every history.
+FULL-STRENGTH statements NOT proved yet (they are judged on every run by the monitor instead: `Driver/C15 m` replays the real
+code's answers against `specStep`, and the model is compared with the real code line by line):
+  `answer_refines_spec : step op o s = (o', s', e) → e ≠ .oom → (s'.v, e) = specStep op s.v`  (every answer other than
+  out-of-memory is exactly the failure-free effect, under any oracle),
+  `runRetry_eq_specRun : (runRetry ops o s).1.v = (specRun ops s.v).1 ∧ (runRetry ops o s).2 = (specRun ops s.v).2` (repeating
+  failed calls converges to the failure-free history, for every history and oracle; an instance is checked by `decide` below),
+  `never_corrupt : (run ops o St.init).1.corrupt = false` (the driver prints CORRUPT if the model ever sets the flag).
 -/
 import AsmjitVerif.Lemmas.Fault
 namespace AsmjitVerif.Fault
@@ -116,6 +120,31 @@ theorem reserve_fail_keeps (o o1 : Oracle) (size cap n item c : Nat)
   · rw [h1] at h; cases h
   · rw [h1] at h; cases h; exact ⟨rfl, req_true_faults _ _ hr⟩
   · rw [h1] at h; cases h
+
+theorem reserveAdd_nil (size cap n item : Nat) :
+    (reserveAdd [] size cap n item).2.2 = true ∧ (reserveAdd [] size cap n item).1 = [] := by
+  unfold reserveAdd; split <;> simp [req]
+
+/-- `no_fault_no_oom_partial`: with no failure injected (`o = []`) `new_label_id` and `ArenaVector::append` never answer
+out of memory - an out-of-memory answer is always caused by a failed request.  (Full statement: for every operation;
+proved here for these two, monitored for the rest: `runGood` demands `fired > 0` for every reported error.) -/
+theorem no_fault_no_oom_partial (s : St) : (newLabel [] s).2.2 ≠ .oom ∧ ∀ x, (vappend [] s x).2.2 ≠ .oom := by
+  constructor
+  · unfold newLabel
+    have := reserveAdd_nil s.v.labels.length s.c.labCap 1 16
+    generalize reserveAdd [] s.v.labels.length s.c.labCap 1 16 = r at this ⊢
+    obtain ⟨o1, c1, b⟩ := r
+    simp only at this
+    obtain ⟨rfl, rfl⟩ := this
+    simp
+  · intro x
+    unfold vappend
+    have := reserveAdd_nil s.v.vec.length s.c.vecCap 1 4
+    generalize reserveAdd [] s.v.vec.length s.c.vecCap 1 4 = r at this ⊢
+    obtain ⟨o1, c1, b⟩ := r
+    simp only at this
+    obtain ⟨rfl, rfl⟩ := this
+    simp
 
 -- non-vacuity: concrete fault patterns on the initial state
 /-- the only request of this `new_section` (the Section object; both vectors still have room) fails -/
